@@ -125,11 +125,13 @@ type e2eFixture struct {
 	st2  *memState
 	pub  *ecdsa.PublicKey
 	sql  *sqlRef
-	txs  []*refTx // txs[id-1]
-	keys [][]byte
-	refs [][]byte // reference keys
-	ctr  int
-	vers map[string][]uint64 // logical key -> tx ids that set it (plain values)
+
+	sqlForged string   // how the row of the VerifyRow call in flight was forged
+	txs       []*refTx // txs[id-1]
+	keys      [][]byte
+	refs      [][]byte // reference keys
+	ctr       int
+	vers      map[string][]uint64 // logical key -> tx ids that set it (plain values)
 }
 
 var (
@@ -668,6 +670,7 @@ func TestClientServer(t *testing.T) {
 					rt.Fatalf("harness: %v", err)
 				}
 				row, table := rc.row, rc.table
+				f.sqlForged = rc.forged
 				call = func() opResult {
 					return opResult{err: cl.VerifyRow(ctx, row, table, []*schema.SQLValue{row.Values[0]})}
 				}
